@@ -175,6 +175,21 @@ func TestC18Shutdown(t *testing.T) {
 		if len(kinds) == 0 {
 			kinds = []string{rapid.SampledFrom([]string{"http", "tcp", "tcp+sni", "grpc", "https+tcp+sni"}).Draw(t, "single")}
 		}
+		// every third mix has an http and a tcp listener on the same port of two local addresses
+		wantShared := rapid.IntRange(0, 2).Draw(t, "tcp-and-http-share-a-port-on-two-addresses") == 0
+		if wantShared {
+			have := map[string]bool{}
+			for _, k := range kinds {
+				have[k] = true
+			}
+			var withBoth []string
+			for _, k := range all {
+				if have[k] || k == "http" || k == "tcp" {
+					withBoth = append(withBoth, k)
+				}
+			}
+			kinds = withBoth
+		}
 		// the routing table for this mix
 		tblText := fmt.Sprintf("route add web / %s\nroute add sni sni.example/ tcp://%s\n", httpUp.URL, tcpUp.Addr())
 		tblText += fmt.Sprintf("route add g /c18.S/ grpc://%s opts \"proto=grpc\"\n", h.backends[0].ln.Addr())
@@ -182,7 +197,7 @@ func TestC18Shutdown(t *testing.T) {
 		sharedPort := false
 		for _, k := range kinds {
 			addrs[k] = freeAddr()
-			if k == "tcp" && addrs["http"] != "" && rapid.Bool().Draw(t, "tcp-and-http-share-a-port-on-two-addresses") {
+			if k == "tcp" && addrs["http"] != "" && wantShared {
 				// the same port on another local address (127.0.0.2): two listeners, two servers
 				_, p, _ := net.SplitHostPort(addrs["http"])
 				if ln, err := net.Listen("tcp", "127.0.0.2:"+p); err == nil {
